@@ -13,61 +13,232 @@ Definition io_post (p : gslice) (alen : N) (io : iout) : Prop :=
 Definition init_post (p : gslice) (alen : N) (r : res iout) : Prop :=
   match r with Ok io => io_post p alen io | Rej => True | _ => False end.
 
+Lemma Pn_q : forall x, exists q, Pn x = 4096 * q /\ x <= 4096 * q < x + 4096.
+Proof. intros x. exists ((x + 4096 - 1) / 4096). unfold Pn, zP. split; [reflexivity|lia]. Qed.
+
 Lemma init_ok : forall p alen, gwf p -> bytes_ok (g_arr p) ->
   init_post p alen (single_initializer_go true p alen).
 Proof.
   intros p alen W Hb. unfold single_initializer_go.
-  pose proof (dsv_ok p W Hb) as D. unfold declared.
-  destruct (decode_serialized_values p) as [b| | |]; cbn [bind dsv_post] in *; try exact I; try contradiction.
+  pose proof (dsv_ok p W Hb) as D.
+  destruct (decode_serialized_values p) as [b| | |] eqn:Dq; cbn [bind dsv_post] in *; try exact I; try contradiction.
   destruct D as (Wc & Tc & Lc & Ho & Hw & Hz & Hs).
   cbn [andb]. destruct (zI <? alen) eqn:Ea; [exact I|].
   cbv zeta.
   match goal with |- context [if ?c then Rej else _] => destruct c; [exact I|] end.
-  set (lo := g_len (sb_o b)) in *. set (lw := g_len (sb_w b)) in *. set (z := sb_z b) in *. set (s := sb_s b) in *.
-  clearbody lo lw z s.
+  remember (g_len (sb_o b)) as lo eqn:Rlo. remember (g_len (sb_w b)) as lw eqn:Rlw.
+  remember (sb_z b) as z eqn:Rz. remember (sb_s b) as s eqn:Rs.
   assert (Ha : alen <= 16777216) by (unfold zI in Ea; lia).
   rewrite !P32_eq by lia. rewrite !Z32_eq by lia.
-  assert (Q1 : lo <= Pn lo < lo + 4096) by (unfold Pn, zP; lia).
-  assert (Q2 : lw <= Pn lw < lw + 4096) by (unfold Pn, zP; lia).
-  assert (Q3 : s <= Pn s < s + 4096) by (unfold Pn, zP; lia).
-  assert (Q4 : alen <= Pn alen <= 16777216) by (unfold Pn, zP; lia).
   assert (Q5 : lo <= Zn lo < lo + 65536) by (unfold Zn, zZ; lia).
-  set (plo := Pn lo) in *. set (plw := Pn lw) in *. set (ps := Pn s) in *. set (pa := Pn alen) in *. set (zlo := Zn lo) in *.
-  assert (D1 : plo mod 4096 = 0) by (unfold plo, Pn, zP; lia).
-  assert (D2 : plw mod 4096 = 0) by (unfold plw, Pn, zP; lia).
-  assert (D3 : ps mod 4096 = 0) by (unfold ps, Pn, zP; lia).
-  assert (D4 : pa mod 4096 = 0) by (unfold pa, Pn, zP; lia).
-  clearbody plo plw ps pa zlo.
+  set (zlo := Zn lo) in *. clearbody zlo.
+  destruct (Pn_q lo) as (qlo & E1 & Q1). destruct (Pn_q lw) as (qlw & E2 & Q2).
+  destruct (Pn_q s) as (qs & E3 & Q3). destruct (Pn_q alen) as (qa & E4 & Q4).
+  assert (DQ : declared p alen = z * 4096 + 4096 * qs + 4096 * qlo + 4096 * qlw + 4096 * qa).
+  { unfold declared. rewrite Dq. rewrite <- Rlo, <- Rlw, <- Rz, <- Rs, E1, E2, E3, E4. reflexivity. }
+  rewrite E1, E2, E3, E4. clear E1 E2 E3 E4.
   unfold zZ, zI, zP in *.
   repeat rewrite (u32_small lo) by lia. repeat rewrite (u32_small lw) by lia.
   repeat rewrite (u32_small z) by lia. repeat rewrite (u32_small alen) by lia.
   repeat rewrite (u32_small (z * 4096)) by lia.
   repeat rewrite (u32_small (65536 + lo)) by lia.
-  repeat rewrite (u32_small (65536 + plo)) by lia.
+  repeat rewrite (u32_small (65536 + 4096 * qlo)) by lia.
   repeat rewrite (u32_small (2 * 65536 + zlo)) by lia.
   repeat rewrite (u32_small (2 * 65536 + zlo + lw)) by lia.
-  repeat rewrite (u32_small (2 * 65536 + zlo + plw)) by lia.
-  repeat rewrite (u32_small (2 * 65536 + zlo + plw + z * 4096)) by lia.
-  replace (u32 (4294967296 - 2 * 65536 - 16777216 + 4294967296 - ps)) with (4294967296 - 2 * 65536 - 16777216 - ps)
-    by (unfold u32; lia).
+  repeat rewrite (u32_small (2 * 65536 + zlo + 4096 * qlw)) by lia.
+  repeat rewrite (u32_small (2 * 65536 + zlo + 4096 * qlw + z * 4096)) by lia.
+  replace (u32 (4294967296 - 2 * 65536 - 16777216 + 4294967296 - 4096 * qs))
+    with (4294967296 - 2 * 65536 - 16777216 - 4096 * qs) by (unfold u32; lia).
   repeat rewrite (u32_small (4294967296 - 65536 - 16777216 + alen)) by lia.
-  repeat rewrite (u32_small (4294967296 - 65536 - 16777216 + pa)) by lia.
-  destruct (seg_ok 65536 (65536 + lo) false {| m_iv := []; m_made := 0 |}) as (m1 & S1 & M1); [unfold zP; lia|].
+  repeat rewrite (u32_small (4294967296 - 65536 - 16777216 + 4096 * qa)) by lia.
+  assert (B1 : 65536 + lo + 4096 <= 4294967296) by lia.
+  assert (B2 : 65536 + 4096 * qlo + 4096 <= 4294967296) by lia.
+  assert (B3 : 2 * 65536 + zlo + lw + 4096 <= 4294967296) by lia.
+  assert (B4 : 2 * 65536 + zlo + 4096 * qlw + z * 4096 + 4096 <= 4294967296) by lia.
+  assert (B5 : 4294967296 - 2 * 65536 - 16777216 + 4096 <= 4294967296) by lia.
+  assert (B6 : 4294967296 - 65536 - 16777216 + alen + 4096 <= 4294967296) by lia.
+  assert (B7 : 4294967296 - 65536 - 16777216 + 4096 * qa + 4096 <= 4294967296) by lia.
+  destruct (seg_ok 65536 (65536 + lo) false {| m_iv := []; m_made := 0 |} B1) as (m1 & S1 & M1).
   rewrite S1; cbn [bind].
-  destruct (seg_ok (65536 + lo) (65536 + plo) true m1) as (m2 & S2 & M2); [unfold zP; lia|].
+  assert (M1' : m_made m1 <= qlo) by (cbn [m_made] in M1; unfold zP in M1; clear - M1 Q1; lia). clear M1.
+  destruct (seg_ok (65536 + lo) (65536 + 4096 * qlo) true m1 B2) as (m2 & S2 & M2).
   rewrite S2; cbn [bind].
-  destruct (seg_ok (2 * 65536 + zlo) (2 * 65536 + zlo + lw) false m2) as (m3 & S3 & M3); [unfold zP; lia|].
+  assert (M2' : m_made m2 <= qlo + 1) by (unfold zP in M2; clear - M2 M1' Q1; lia). clear M2 M1'.
+  destruct (seg_ok (2 * 65536 + zlo) (2 * 65536 + zlo + lw) false m2 B3) as (m3 & S3 & M3).
   rewrite S3; cbn [bind].
-  destruct (seg_ok (2 * 65536 + zlo + lw) (2 * 65536 + zlo + plw + z * 4096) true m3) as (m4 & S4 & M4); [unfold zP; lia|].
+  assert (M3' : m_made m3 <= qlo + 1 + qlw) by (unfold zP in M3; clear - M3 M2' Q2; lia). clear M3 M2'.
+  destruct (seg_ok (2 * 65536 + zlo + lw) (2 * 65536 + zlo + 4096 * qlw + z * 4096) true m3 B4) as (m4 & S4 & M4).
   rewrite S4; cbn [bind].
-  destruct (seg_ok (4294967296 - 2 * 65536 - 16777216 - ps) (4294967296 - 2 * 65536 - 16777216) false m4) as (m5 & S5 & M5); [unfold zP; lia|].
+  assert (M4' : m_made m4 <= qlo + 1 + qlw + z + 1) by (unfold zP in M4; clear - M4 M3' Q2; lia). clear M4 M3'.
+  destruct (seg_ok (4294967296 - 2 * 65536 - 16777216 - 4096 * qs) (4294967296 - 2 * 65536 - 16777216) false m4 B5)
+    as (m5 & S5 & M5).
   rewrite S5; cbn [bind].
-  destruct (seg_ok (4294967296 - 65536 - 16777216) (4294967296 - 65536 - 16777216 + alen) false m5) as (m6 & S6 & M6); [unfold zP; lia|].
+  assert (M5' : m_made m5 <= qlo + 1 + qlw + z + 1 + qs) by (unfold zP in M5; clear - M5 M4' Q3 Hs; lia). clear M5 M4'.
+  destruct (seg_ok (4294967296 - 65536 - 16777216) (4294967296 - 65536 - 16777216 + alen) false m5 B6) as (m6 & S6 & M6).
   rewrite S6; cbn [bind].
-  destruct (seg_ok (4294967296 - 65536 - 16777216 + alen) (4294967296 - 65536 - 16777216 + pa) true m6) as (m7 & S7 & M7); [unfold zP; lia|].
+  assert (M6' : m_made m6 <= qlo + 1 + qlw + z + 1 + qs + qa) by (unfold zP in M6; clear - M6 M5' Q4; lia). clear M6 M5'.
+  destruct (seg_ok (4294967296 - 65536 - 16777216 + alen) (4294967296 - 65536 - 16777216 + 4096 * qa) true m6 B7)
+    as (m7 & S7 & M7).
   rewrite S7; cbn [bind init_post]. unfold io_post; cbn [io_c io_alloc].
+  assert (M7' : m_made m7 <= qlo + 1 + qlw + z + 1 + qs + qa + 1) by (unfold zP in M7; clear - M7 M6' Q4; lia).
+  clear M7 M6'.
   repeat split; try assumption.
-  cbn [m_made] in M1. unfold zP in *.
-  assert (m_made m7 <= (z * 4096 + ps + plo + plw + pa) / 4096 + 3) by lia.
-  unfold SZ_MAP, SZ_PAGE. nia.
+  rewrite DQ. unfold zP.
+  replace ((z * 4096 + 4096 * qs + 4096 * qlo + 4096 * qlw + 4096 * qa) / 4096) with (z + qs + qlo + qlw + qa)
+    by (clear; lia).
+  unfold SZ_MAP, SZ_PAGE. clear - M7'. lia.
 Qed.
+
+(* ---- the loading half of Psi_M: Y, then deblob of the code Y returns ---- *)
+Definition load_post (r : res (iout * gprog)) : Prop :=
+  match r with
+  | Ok (_, g) => gp_rok g = true /\ forall a, exists j, djump_go true g a = Ok j
+  | Rej => True
+  | _ => False
+  end.
+
+Lemma psi_m_load_ok : forall p alen, gwf p -> bytes_ok (g_arr p) -> gcap p + 64 < 4294967296 ->
+  load_post (psi_m_load true p alen).
+Proof.
+  intros p alen W Hb Hc. unfold psi_m_load.
+  pose proof (init_ok p alen W Hb) as I0.
+  destruct (single_initializer_go true p alen) as [io| | |]; cbn [bind init_post] in *; try exact I; try contradiction.
+  destruct I0 as (Wc & Tc & Lc & _).
+  pose proof (deblob_ok (io_c io) Wc (within_bytes_ok _ _ Tc Hb)) as D0.
+  pose proof (within_cap _ _ Tc) as Cc.
+  specialize (D0 ltac:(lia)).
+  destruct (deblob_go true true (io_c io)) as [g| | |]; cbn [bind deblob_post load_post] in *; try exact I; try contradiction.
+  split; [apply D0|]. intros a. eapply djump_ok; exact D0.
+Qed.
+
+(* an inner-machine blob (the machine host call) goes through deblob alone *)
+Definition inner_post (r : res gprog) : Prop :=
+  match r with
+  | Ok g => gp_rok g = true /\ forall a, exists j, djump_go true g a = Ok j
+  | Rej => True
+  | _ => False
+  end.
+
+Lemma deblob_inner_ok : forall d, gwf d -> bytes_ok (g_arr d) -> gcap d + 64 < 4294967296 ->
+  inner_post (deblob_go true true d).
+Proof.
+  intros d W Hb Hc. pose proof (deblob_ok d W Hb Hc) as D0.
+  destruct (deblob_go true true d) as [g| | |]; cbn [deblob_post inner_post] in *; try exact I; try contradiction.
+  split; [apply D0|]. intros a. eapply djump_ok; exact D0.
+Qed.
+
+Lemma mk_slice_wf : forall b spare, gwf (mk_slice b spare).
+Proof. intros. unfold gwf, gcap, mk_slice, nlen; cbn [g_arr g_len]. rewrite app_length. lia. Qed.
+
+(* ---- the allocation bound ---- *)
+Lemma alloc_deblob_bound : forall d, gwf d -> bytes_ok (g_arr d) -> gcap d + 64 < 4294967296 ->
+  alloc_deblob d <= 496 * g_len d + 49232.
+Proof.
+  intros d W Hb Hc. unfold alloc_deblob. pose proof (deblob_ok d W Hb Hc) as D0.
+  destruct (deblob_go true true d) as [g| | |]; cbn [deblob_post] in *; try lia.
+  destruct D0 as (_ & _ & _ & _ & _ & _ & _ & L & A). lia.
+Qed.
+
+Lemma alloc_load_bound : forall p alen, gwf p -> bytes_ok (g_arr p) -> gcap p + 64 < 4294967296 ->
+  alloc_load p alen <= alloc_bound_of p alen.
+Proof.
+  intros p alen W Hb Hc. unfold alloc_load, alloc_bound_of, C_BLOB, K_FIXED.
+  pose proof (init_ok p alen W Hb) as I0.
+  destruct (single_initializer_go true p alen) as [io| | |]; cbn [init_post] in *; try lia.
+  destruct I0 as (Wc & Tc & Lc & A).
+  pose proof (within_cap _ _ Tc) as Cc.
+  pose proof (alloc_deblob_bound (io_c io) Wc (within_bytes_ok _ _ Tc Hb) ltac:(lia)) as B.
+  unfold SZ_MAP, SZ_PAGE, zP in A.
+  set (D := declared p alen) in *. clearbody D.
+  set (x := alloc_deblob (io_c io)) in *. clearbody x.
+  set (y := io_alloc io) in *. clearbody y.
+  set (lc := g_len (io_c io)) in *. clearbody lc.
+  set (lp := g_len p) in *. clearbody lp.
+  clear - A B Lc. lia.
+Qed.
+
+Lemma deblob_bound : forall d, gwf d -> bytes_ok (g_arr d) -> gcap d + 64 < 4294967296 ->
+  alloc_deblob d <= deblob_bound_of d.
+Proof.
+  intros d W Hb Hc. pose proof (alloc_deblob_bound d W Hb Hc). unfold deblob_bound_of, C_BLOB, K_FIXED. lia.
+Qed.
+
+(* ---- the shapes as found are refuted ---- *)
+(* the argument-zone loop of the unrepaired initialiser: for an argument of Z_I + Z_Z - Z_P + 1 bytes the zone
+   ends at 2^32 - 4095; every page-aligned address is below that, addr += ZP wraps, the loop has no exit *)
+Lemma seg_loop_never_ends : forall fuel addr m,
+  addr mod 4096 = 0 -> addr < 4294967296 -> seg_loop fuel addr 4294963201 false m = OutOfFuel.
+Proof.
+  induction fuel as [|f IH]; intros addr m Ha Hl; [reflexivity|].
+  cbn [seg_loop]. destruct (addr <? 4294963201) eqn:E; [|lia].
+  apply IH; unfold u32, zP; lia.
+Qed.
+
+(* ---- statements in the form Properties/C03.v quotes ---- *)
+Lemma parse_never_gopanic : forall p spare alen,
+  bytes_ok (p ++ spare) -> nlen (p ++ spare) + 64 < 4294967296 ->
+  match psi_m_load true (mk_slice p spare) alen with
+  | Ok (_, g) => gp_rok g = true /\ forall a, exists j, djump_go true g a = Ok j
+  | Rej => True
+  | GoPanic => False
+  | OutOfFuel => False
+  end.
+Proof. intros p spare alen Hb Hc. exact (psi_m_load_ok (mk_slice p spare) alen (mk_slice_wf p spare) Hb Hc). Qed.
+
+Lemma init_never_gopanic : forall p spare alen, bytes_ok (p ++ spare) ->
+  match single_initializer_go true (mk_slice p spare) alen with
+  | Ok io => g_len (io_c io) <= nlen p
+  | Rej => True
+  | GoPanic => False
+  | OutOfFuel => False
+  end.
+Proof.
+  intros p spare alen Hb. pose proof (init_ok (mk_slice p spare) alen (mk_slice_wf p spare) Hb) as H.
+  destruct (single_initializer_go true (mk_slice p spare) alen); cbn [init_post] in *; try exact H.
+  apply H.
+Qed.
+
+Lemma inner_never_gopanic : forall d spare,
+  bytes_ok (d ++ spare) -> nlen (d ++ spare) + 64 < 4294967296 ->
+  match deblob_go true true (mk_slice d spare) with
+  | Ok g => gp_rok g = true /\ forall a, exists j, djump_go true g a = Ok j
+  | Rej => True
+  | GoPanic => False
+  | OutOfFuel => False
+  end.
+Proof. intros d spare Hb Hc. exact (deblob_inner_ok (mk_slice d spare) (mk_slice_wf d spare) Hb Hc). Qed.
+
+Lemma alloc_bound : forall p spare alen,
+  bytes_ok (p ++ spare) -> nlen (p ++ spare) + 64 < 4294967296 ->
+  alloc_load (mk_slice p spare) alen
+  <= C_BLOB * nlen p + K_FIXED + declared (mk_slice p spare) alen + declared (mk_slice p spare) alen / 128.
+Proof. intros p spare alen Hb Hc. exact (alloc_load_bound (mk_slice p spare) alen (mk_slice_wf p spare) Hb Hc). Qed.
+
+Lemma alloc_bound_inner : forall d spare,
+  bytes_ok (d ++ spare) -> nlen (d ++ spare) + 64 < 4294967296 ->
+  alloc_deblob (mk_slice d spare) <= C_BLOB * nlen d + K_FIXED.
+Proof. intros d spare Hb Hc. exact (deblob_bound (mk_slice d spare) (mk_slice_wf d spare) Hb Hc). Qed.
+
+(* witnesses *)
+Definition w_code_len : bytes := [0; 0; 50; 1].
+Definition w_jt_overflow : bytes := [255; 86; 85; 85; 85; 85; 85; 85; 85; 3; 3; 0; 0; 50; 2; 2; 1].
+Definition w_entry_width : bytes := [1; 9; 3; 0; 0; 0; 0; 0; 0; 0; 0; 0; 50; 2; 2; 1].
+(* a valid standard program: 9 bytes of read-only data, 16 of read-write data, z = 1, s = 4096, 25 bytes of program blob *)
+Definition w_std : bytes := [9; 0; 0; 16; 0; 0; 1; 0; 0; 16; 0; 17; 34; 51; 68; 85; 102; 119; 136; 153; 1; 2; 3; 4; 5; 6; 7; 8; 9; 10; 11; 12; 13; 14; 15; 16; 25; 0; 0; 0; 0; 0; 19; 51; 2; 5; 0; 0; 0; 51; 3; 7; 0; 0; 0; 200; 50; 4; 100; 73; 50; 0; 65; 144; 2].
+
+Lemma code_length_refuted : exists d, deblob_go true false (mk_slice d []) = GoPanic.
+Proof. exists w_code_len. vm_compute. reflexivity. Qed.
+
+Lemma jump_table_overflow_refuted : exists d g,
+  deblob_go false true (mk_slice d []) = Ok g /\ nlen d = 17 /\ gp_js g = 1431655766 /\ g_len (gp_jt g) = 2 /\
+  djump_go false g 2 = GoPanic.
+Proof. exists w_jt_overflow. eexists. split; [vm_compute; reflexivity|]. vm_compute. repeat split; reflexivity. Qed.
+
+Lemma entry_width_refuted : exists d g,
+  deblob_go true true (mk_slice d []) = Ok g /\ djump_go false g 2 = GoPanic /\ djump_go true g 2 = Ok (JGo 0).
+Proof. exists w_entry_width. eexists. split; [vm_compute; reflexivity|]. vm_compute. split; reflexivity. Qed.
+
+Lemma argument_loop_refuted : exists p alen,
+  single_initializer_go false (mk_slice p []) alen = OutOfFuel /\
+  single_initializer_go true (mk_slice p []) alen = Rej.
+Proof. exists w_std, 16838657. split; vm_compute; reflexivity. Qed.
